@@ -172,7 +172,7 @@ impl Prop for C16 {
     }
     fn extra(&self, ctx: &mut Ctx) -> Vec<(String, Verdict, Option<AstCase>)> {
         // the target `lang` also compares the engine's nullability verdict with R1
-        super::c01::lang_campaign("C16", ctx, &|case, ctx| check_nullable(case, ctx))
+        super::c01::lang_campaign("C16", "lang", ctx, &|case, ctx| check_nullable(case, ctx))
     }
     fn check(&self, case: &AstCase, ctx: &mut Ctx) -> Verdict {
         check_nullable(case, ctx)
